@@ -1,5 +1,7 @@
 import PfVerif.Audit.Tool
 import PfVerif.Props.C19
 import PfVerif.Lemmas.C19IV
+import PfVerif.Lemmas.C19Float
 #audit_module PfVerif.Props.C19
 #audit_module_ns PfVerif.Lemmas.C19IV PfVerif.C19IV
+#audit_module_ns PfVerif.Lemmas.C19Float PfVerif.C19Float
